@@ -8,7 +8,7 @@ from typing import Optional, Set
 from ..cfg import CFG, normal_compare, split_cond
 from ..model import own_nodes, unparse
 from ..pipeline import Pipeline
-from ..util import assignments_to, const_str, enclosing_stmt, names_in, zip_partner
+from ..util import assignments_to, const_str, enclosing_stmt, influences_result, names_in, zip_partner
 from ..values import Val, texts
 from . import c01
 
@@ -198,6 +198,9 @@ def check(ctx, only_h1: bool = False, h1_rule: str = "C13-H1") -> None:
     for m in bcls.methods.values():
         for n in own_nodes(m.node):
             if isinstance(n, ast.Attribute) and n.attr == "confidence_threshold" and isinstance(n.ctx, ast.Load):
+                if not influences_result(n):
+                    ctx.instance(h5 if False else "C13-H5", "read of confidence_threshold in %s only feeds logging" % m.qualname, m.loc(n), ok=True, nontrivial=False)
+                    continue
                 n_reads += 1
                 # argument `threshold` of predict?
                 par = getattr(n, "_parent", None)
